@@ -637,7 +637,7 @@ Definition vector (outs : list out) : list (sink * list keyid) :=
   filter (fun p => match snd p with [] => false | _ => true end) (map (fun s => (s, sink_keys outs s)) all_sinks).
 
 (* ---- key directory discipline, executable ---- *)
-(* directory state: None = absent; Some (chowned to root?, mode) *)
+(* directory state: None = absent; Some (owner is root:root?, mode) *)
 Definition dirstate := option (bool * N)%type.
 Definition sys_step (d : dirstate) (e : sys) : dirstate :=
   match e, d with
@@ -660,8 +660,13 @@ Fixpoint creates_restricted (co : bool) (d : dirstate) (tr : list sys) : bool :=
   | e :: tr' => creates_restricted co (sys_step d e) tr'
   end.
 
-Definition init_dir (predir : bool) : dirstate := if predir then Some (false, 493%N) else None.
-Definition dir_after (predir : bool) (tr : list sys) : dirstate := fold_left sys_step tr (init_dir predir).
+(* The directory before the agent first starts is ARBITRARY: absent ([predir] = false, [d0] = None) or present
+   with any owner and any mode ([predir] = true, [d0] = Some (owned by root:root?, mode)) -- e.g. 0o755 owned by
+   another account, 0o700 owned by another account (pre-created by a local user), 0o700 root:other-group, 0o755
+   root:root.  The agent's syscalls depend only on [predir]; the theorems quantify over [d0]. *)
+Definition dir_matches (predir : bool) (d0 : dirstate) : Prop :=
+  (predir = true -> d0 <> None) /\ (predir = false -> d0 = None).
+Definition dir_after (d0 : dirstate) (tr : list sys) : dirstate := fold_left sys_step tr d0.
 
 (* codes for the correspondence check *)
 Definition sys_code (e : sys) : N * N :=
